@@ -79,7 +79,7 @@ def st_array_op(draw, shape_rank, extra=()):
         return {'o': 'sibling', 'start': draw(st_start()), 'via': draw(st.sampled_from(['create', 'create', 'open']))}
     if o == 'failappend':
         return {'o': 'failappend', 'chunks': [draw(st_append_arg(valid_only=True)) for _ in range(draw(st.integers(0, 3)))],
-                'kind': draw(st.sampled_from(['raise', 'badshape', 'unconv']))}
+                'kind': draw(st.sampled_from(['raise', 'badshape', 'unconv', 'interrupt']))}
     if o == 'ctx':
         inner = [draw(st.one_of(st.builds(lambda a: {'o': 'append', 'arg': a}, st_append_arg(valid_only=True)),
                                 st.just({'o': 'iterappend', 'chunks': [{'k': 'rows', 'n': 2, 'seed': 5}, {'k': 'zero', 'n': 1, 'seed': 6}], 'gen': True}),
@@ -701,14 +701,14 @@ class ArrayRun:
                 for c in chunks:
                     yield c
                 if bad is None:
-                    raise _Boom('data source failed')
+                    raise (KeyboardInterrupt() if fk == 'interrupt' else _Boom('data source failed'))      # interrupt: Ctrl-C while the source runs
                 yield bad
             newm = m
             for c in chunks:
                 newm = model_append(newm, c)
             try:
                 a.iterappend(src())
-            except Exception:
+            except BaseException:
                 pass
             else:
                 self.out.viol('no-raise', tag, f'step {self.stepno}: failing iterappend did not raise')
